@@ -23,6 +23,9 @@
 #include <set>
 #include <iostream>
 #include <sstream>
+#include <csignal>
+#include <unistd.h>
+#include <sys/time.h>
 #include <libvpsc/rectangle.h>
 #include <libvpsc/variable.h>
 #include <libvpsc/constraint.h>
@@ -183,8 +186,26 @@ static void genMode(const Case &c)
     }
 }
 
+// watchdog on process CPU time (robust against machine load): a layout call that burns more than LIMIT seconds of
+// CPU is reported as "HANG <phase>" and the process exits (the driver restarts it for the remaining cases).
+static volatile const char *g_phase = "";
+static int g_limit = 6;
+static void onVtAlarm(int)
+{
+    const char *p = (const char *) g_phase;
+    char buf[96]; int n = snprintf(buf, sizeof buf, "HANG %s\n", p);
+    if (write(1, buf, n)) {}
+    _exit(3);
+}
+static void armWatchdog(int secs)
+{
+    struct itimerval it; it.it_interval.tv_sec = 0; it.it_interval.tv_usec = 0; it.it_value.tv_sec = secs; it.it_value.tv_usec = 0;
+    setitimer(ITIMER_VIRTUAL, &it, nullptr);
+}
+
 static void layoutMode(const Case &c)
 {
+    armWatchdog(g_limit);
     vpsc::Rectangles rs;
     for (int i = 0; i < c.n; i++) rs.push_back(new vpsc::Rectangle(c.x[i], c.X[i], c.y[i], c.Y[i]));
     CompoundConstraints ccs;
@@ -198,6 +219,7 @@ static void layoutMode(const Case &c)
             alg.setConstraints(&ccs);
             if (c.overlap) alg.setAvoidOverlaps(false);
             alg.setUnsatisfiableConstraintInfo(&ux, &uy);
+            g_phase = "majorization-run";
             alg.run();
         } else {
             ConstrainedFDLayout alg(rs, c.es, c.ideal);
@@ -205,14 +227,18 @@ static void layoutMode(const Case &c)
             if (c.overlap) alg.setAvoidNodeOverlaps(true);
             if (c.neighbour) alg.setUseNeighbourStress(true);
             alg.setUnsatisfiableConstraintInfo(&ux, &uy);
+            g_phase = "makeFeasible";
             if (c.mode == 0 || c.mode == 2) alg.makeFeasible();
+            g_phase = "run";
             if (c.mode == 0 || c.mode == 1) alg.run();
         }
     } catch (InvalidVariableIndexException &e) { exc = "InvalidVariableIndexException";
     } catch (InvalidConstraint &e) { exc = "InvalidConstraint";
     } catch (vpsc::CriticalFailure &e) { exc = std::string("CriticalFailure ") + e.what();
+    } catch (char *s) { exc = "char* (thrown by vpsc::IncSolver::satisfy; text not printed: it points into a destroyed temporary)";
     } catch (std::exception &e) { exc = std::string("std::exception ") + e.what();
     } catch (...) { exc = "unknown exception"; }
+    armWatchdog(0);
     char b[256];
     out << "R";
     for (int i = 0; i < c.n; i++) {
@@ -248,6 +274,8 @@ static void layoutMode(const Case &c)
 int main(int argc, char **argv)
 {
     std::string mode = argc > 1 ? argv[1] : "gen";
+    if (argc > 2) g_limit = atoi(argv[2]);
+    signal(SIGVTALRM, onVtAlarm);
     std::string line;
     // libcola prints warnings on stderr; keep stdout for results only
     while (std::getline(std::cin, line)) {
